@@ -1,5 +1,6 @@
 """C03 — declared parameters suffice and declared constraints are enforced."""
 import copy
+import json
 import fractions
 import os
 import warnings
@@ -18,13 +19,15 @@ CORR_IMPORTS = ['QV.C03.Model', 'QV.C03.Spec', 'QV.C03.Corr']
 CHECK_CORR = 'check_corr'
 CHECK_SPEC = 'check_spec'
 SHARD = 150
-RULE = ('template trees over Table/Point/Function atoms, AtomicMultiChannelPT, ParallelChannelPT, SequencePT, '
-        'RepetitionPT, ForLoopPT, MappingPT (partial mappings, shadowing, directly nested mappings with and without '
+RULE = ('template trees over Table/Point/Function/Constant atoms, AtomicMultiChannelPT, ParallelChannelPT, ArithmeticPT '
+        '(scalar, atomic), TimeReversalPT, SequencePT, RepetitionPT, ForLoopPT, MappingPT, random to_single_waveform sets '
+        '(partial mappings, shadowing, directly nested mappings with and without '
         'constraints) with constraints and measurement windows on every node kind that accepts them; constraints are '
         'generated tight against a reference assignment in every environment their node is reached in (loop indices, '
         'mapped values), deliberately false on unreached nodes (count <= 0, empty range); families: exact declared '
         'names, +extra names, one declared name removed, one constraint violated (constant moved past the tight '
-        'environment), perturbed values, all channels dropped, malformed (non-integer count, zero step, negative '
+        'environment), perturbed values, channels dropped (all / partial), zero factor + removed name in a function '
+        'product, malformed (non-integer count, zero step, negative '
         'window).  Declared names are taken from the implementation at run time.  Non-trivial = tree with >= 1 '
         'constraint and >= 2 nodes; distinct = distinct canonical JSON.')
 TRUSTED = [
@@ -35,8 +38,8 @@ TRUSTED = [
     'harness: generators, construction of the real template objects from the JSON tree, Gallina printers',
 ]
 ASSUMPTIONS = [
-    'templates have no identifier and are not in to_single_waveform; no volatile parameters',
-    'channel dropping is all-or-nothing (every defined channel mapped to None at the top level)',
+    'templates have no identifier; no volatile parameters; channels are not renamed',
+    'ArithmeticPT: operators + - * with parameter-only scalars; ArithmeticAtomicPT operands have equal durations',
     'expression language: + - * over parameters and dyadic constants; comparisons < <= > >= ==',
     'AtomicMultiChannelPT without explicit duration; ParallelChannelPT never inside AtomicMultiChannelPT',
 ]
@@ -285,8 +288,12 @@ class Gen:
         if must is not None:
             reads[r.randrange(nreads)] = V(must) if r.random() < 0.6 else ['+', V(must), C(1)]
         dur = self.dur(names, const=in_amc)
-        if k == 'const' and not in_amc and names and r.random() < 0.3:
-            dur = [r.choice('+-'), V(r.choice(names)), C(r.choice([0, 1]))]       # may be <= 0: no waveform
+        if k == 'const' and not in_amc and names and r.random() < 0.4:
+            x = r.choice(names)
+            if envs and r.random() < 0.5:
+                dur = ['-', V(x), C(envs[0][x])]                                  # exactly 0 in the first environment
+            else:
+                dur = [r.choice('+-'), V(x), C(r.choice([0, 1]))]                 # may be <= 0: no waveform
         return {'k': k, 'ch': list(chs), 'reads': reads, 'dur': dur,
                 'cs': [] if k == 'const' else self.constraints(names, envs), 'ms': self.windows(names)}
 
@@ -532,6 +539,16 @@ def malform(tree, rng):
     return None, None
 
 
+def constructible(tree):
+    """the real constructors accept the tree: no unnecessary mapping, the loop index is a parameter of the body"""
+    for n in nodes(tree):
+        if n['k'] == 'map' and set(n['m']) - py_pnames(n['inner']):
+            return False
+        if n['k'] == 'for' and n['idx'] not in py_pnames(n['body']):
+            return False
+    return True
+
+
 def gen_tree(rng, max_depth):
     for _ in range(50):
         g = Gen(rng, max_depth)
@@ -581,9 +598,74 @@ def zero_candidates(tree):
     return out
 
 
+def enum_small():
+    """thorough tier: every tree with <= 3 nodes over a small grammar (names a, b; one channel), with <= 2 constraints
+    from a fixed pool on the constrainable nodes, under 3 reference assignments; families: exact (+ extra names as
+    second assignment), each declared name removed, channel dropped"""
+    import itertools
+    a, b, i = V('p0'), V('p1'), V('i1')
+    pool = [{'op': '<', 'l': a, 'r': b}, {'op': '==', 'l': b, 'r': C(1)}, {'op': '>=', 'l': ['*', a, b], 'r': C(0)}]
+
+    def atoms(x):
+        yield {'k': 'table', 'ch': ['A'], 'reads': [x, b], 'dur': C(2), 'cs': [], 'ms': []}
+        yield {'k': 'point', 'ch': ['A'], 'reads': [x, C(1)], 'dur': ['*', b, b], 'cs': [], 'ms': []}
+        yield {'k': 'func', 'ch': ['A'], 'reads': [['*', x, b]], 'dur': C(2), 'cs': [], 'ms': []}
+        yield {'k': 'const', 'ch': ['A'], 'reads': [x], 'dur': b, 'cs': [], 'ms': [[C(0), x]]}
+
+    def wrap(t):
+        yield {'k': 'seq', 'subs': [t], 'cs': [], 'ms': []}
+        for cnt in (C(0), C(1), a):
+            yield {'k': 'rep', 'body': t, 'count': cnt, 'cs': [], 'ms': []}
+        yield {'k': 'map', 'inner': t, 'm': {'p0': ['+', b, C(1)]} if 'p0' in py_pnames(t) else {}, 'cs': []}
+        yield {'k': 'map', 'inner': t, 'm': {'p1': ['*', a, a]} if 'p1' in py_pnames(t) else {}, 'cs': []}
+        yield {'k': 'par', 'inner': t, 'ow': [['B', a]]}
+        yield {'k': 'ari', 'inner': t, 'op': '+', 'side': 'r', 'sa': [b], 'sc': []}
+        yield {'k': 'ari', 'inner': t, 'op': '*', 'side': 'l', 'sa': [], 'sc': [['A', a]]}
+        yield {'k': 'rev', 'inner': t}
+        if t['k'] in ('table', 'point', 'func', 'const'):
+            yield {'k': 'aat', 'lhs': t, 'rhs': {'k': 'const', 'ch': ['A'], 'reads': [b], 'dur': t['dur'], 'cs': [], 'ms': []},
+                   'op': '+', 'ms': [[a, C(1)]]}
+
+    def loops(t_of):
+        for t in t_of(i):
+            yield {'k': 'for', 'body': t, 'idx': 'i1', 'a': C(0), 'b': a, 'st': C(1), 'cs': [], 'ms': []}
+        for t in t_of(a):
+            yield {'k': 'for', 'body': t, 'idx': 'p0', 'a': C(0), 'b': b, 'st': C(1), 'cs': [], 'ms': []}     # shadowing
+
+    one = list(atoms(a))
+    two = [w for t in one for w in wrap(t)] + list(loops(atoms))
+    two += [{'k': 'seq', 'subs': [t, u], 'cs': [], 'ms': []} for t in one[:2] for u in one]
+    three = [w for t in two for w in wrap(t) if not (w['k'] == 'aat')]
+    three += list(loops(lambda x: [w for t in atoms(x) for w in wrap(t) if w['k'] in ('seq', 'rep', 'map', 'ari')]))
+    trees = one + two + three
+    refs = [{'p0': F(1), 'p1': F(2)}, {'p0': F(2), 'p1': F(1)}, {'p0': F(0), 'p1': F(1)}]
+    out = []
+    import random
+    r0 = random.Random(1)
+    for t in trees:
+        if not sympy_ok(t) or not constructible(t):
+            continue
+        slots = [n for n in nodes(t) if 'cs' in n and n['k'] != 'const']
+        variants = [t]
+        for n_i, cs in itertools.product(range(len(slots)), [[pool[0]], [pool[1], pool[2]]]):
+            t2 = copy.deepcopy(t)
+            [n for n in nodes(t2) if 'cs' in n and n['k'] != 'const'][n_i]['cs'] = copy.deepcopy(cs)
+            variants.append(t2)
+        for v in variants:
+            for ref in refs:
+                out.append(mk_case(v, ref, 'exact', r0, tag='small'))
+            out.append(mk_case(v, refs[0], 'removed', r0, tag='small'))
+            out[-1]['rm'] = 0
+            out.append(mk_case(v, refs[0], 'removed', r0, tag='small'))
+            out[-1]['rm'] = 1
+            out.append(mk_case(v, refs[2], 'zero', r0, zeros=['p0'], rmn='p1', tag='small'))
+            out.append(mk_case(v, refs[0], 'exact', r0, drop=['A'], tag='small'))
+    return out
+
+
 def gen_cases(rng, tier, ctx, every_constraint=False):
-    ntrees = {'quick': 150, 'thorough': 2200}[tier]
-    cases = []
+    ntrees = {'quick': 150, 'thorough': 1200}[tier]
+    cases = enum_small() if tier == 'thorough' else []
     for t in range(ntrees):
         g, tree, ref = gen_tree(rng, rng.choice([2, 3, 3, 4]))
         cases.append(mk_case(tree, ref, 'exact', rng))
@@ -605,13 +687,15 @@ def gen_cases(rng, tier, ctx, every_constraint=False):
         if rng.random() < 0.45:
             cases.append(mk_case(tree, ref, rng.choice(['exact', 'removed']), rng,
                                  drop=rng.choice([['A'], ['B'], ['A', 'B'], ['A', 'B']]), tag='drop'))
+        if any(n['k'] in ('aat', 'const', 'ari', 'par', 'amc') for n in nodes(tree)) and rng.random() < 0.5:
+            cases.append(mk_case(tree, ref, 'exact', rng, drop=rng.choice([['A'], ['B']]), tag='drop'))
         zc = zero_candidates(tree)
         if zc:
             x, y = rng.choice(zc)
             cases.append(mk_case(tree, ref, 'zero', rng, zeros=[x], rmn=y, tag='zero'))
         if rng.random() < 0.2:
             bad, what = malform(tree, rng)
-            if bad is not None and sympy_ok(bad):
+            if bad is not None and sympy_ok(bad) and constructible(bad):
                 cases.append(mk_case(bad, ref, rng.choice(['exact', 'exact', 'removed']), rng, tag='malformed:' + what))
     return cases
 
@@ -861,6 +945,79 @@ def classify(case, obs):
     return None
 
 
+def tree_size(t):
+    return sum(1 for _ in nodes(t)) * 100 + len(json.dumps(t)) / 100.0
+
+
+def shrink(case, obs, ctx):
+    """greedy structural shrinking of a case on which check_spec fails: per round all one-step reductions (node ->
+    child, drop a constraint / window / mapping entry / sequence member / to_single_waveform flag) are run on the
+    implementation and judged by the Coq specification in one coqc call"""
+    wd = os.path.join(ctx['workdir'], 'shrink')
+
+    def kids(t):
+        k = t['k']
+        if k in ('amc', 'seq'):
+            return [('subs', j) for j in range(len(t['subs']))]
+        if k in ('par', 'map', 'ari', 'rev'):
+            return [('inner', None)]
+        if k in ('rep', 'for'):
+            return [('body', None)]
+        if k == 'aat':
+            return [('lhs', None), ('rhs', None)]
+        return []
+
+    def get(t, key):
+        return t[key[0]] if key[1] is None else t[key[0]][key[1]]
+
+    def put(t, key, v):
+        t2 = dict(t)
+        if key[1] is None:
+            t2[key[0]] = v
+        else:
+            t2[key[0]] = t[key[0]][:key[1]] + [v] + t[key[0]][key[1] + 1:]
+        return t2
+
+    def variants(t):
+        out = [get(t, key) for key in kids(t)]
+        for f in ('cs', 'ms'):
+            for j in range(len(t.get(f, []))):
+                out.append(dict(t, **{f: t[f][:j] + t[f][j + 1:]}))
+        if t.get('tsw'):
+            out.append({k: v for k, v in t.items() if k != 'tsw'})
+        if t['k'] in ('seq',) and len(t['subs']) > 1:
+            for j in range(len(t['subs'])):
+                out.append(dict(t, subs=t['subs'][:j] + t['subs'][j + 1:]))
+        if t['k'] == 'map':
+            for key in t['m']:
+                out.append(dict(t, m={k: v for k, v in t['m'].items() if k != key}))
+        for key in kids(t):
+            for v in variants(get(t, key)):
+                out.append(put(t, key, v))
+        return out
+
+    cur, cur_obs = case, obs
+    for _ in range(10):
+        cands = [dict(cur, tree=v) for v in variants(cur['tree'])]
+        cands = sorted(cands, key=lambda c: tree_size(c['tree']))[:80]
+        if not cands:
+            break
+        obss = [run_impl(c) for c in cands]
+        keep = [(c, o) for c, o in zip(cands, obss) if 'crash' not in o and 'hang' not in o]
+        if not keep:
+            break
+        terms = [to_coq(c, o) for c, o in keep]
+        res = vlib.run_coq_cases(wd, CORR_IMPORTS, [CHECK_SPEC], terms, shard=SHARD)
+        bad = [j for j in res[CHECK_SPEC] if classify(keep[j][0], keep[j][1]) is None]
+        if not bad:
+            break
+        best = min(bad, key=lambda j: tree_size(keep[j][0]['tree']))
+        if tree_size(keep[best][0]['tree']) >= tree_size(cur['tree']):
+            break
+        cur, cur_obs = keep[best]
+    return cur, cur_obs
+
+
 def search_failing(ctx, broken):
     """the specification oracle (check_spec, evaluated in Coq) against the implementation on a larger stream"""
     import random
@@ -878,21 +1035,26 @@ def search_failing(ctx, broken):
 MANIFEST = {
     'level_text': 'Proof + correspondence.  Gallina model of parameter_names, the MappingPT constructor, the scope classes '
                   '(lazy MappedScope, RangeScope, keys()/as_dict() forcing) and _create_program / build_waveform / '
-                  'get_measurement_windows of Table/Point/Function/AtomicMultiChannel/ParallelChannel/Sequence/Repetition/'
-                  'ForLoop/Mapping templates.  Proved for all trees and scopes (induction on the template): the model '
-                  'refines an independent lazy specification (obligations of all reached nodes: visible constraints with '
-                  'the environment their node sees, needed reads); (a) declared names suffice; (b) other names are '
-                  'irrelevant when the declared ones are supplied (full statement for incomplete assignments kept as '
-                  'C03_irrelevant_statement, not proved); (c) accepted iff every visible constraint holds, violation '
-                  'raised only for a false visible constraint; (d) a missing needed value never yields a program.  The '
-                  'model is tied to /repo by an exact correspondence check on generated trees x assignment families; '
+                  'get_measurement_windows of Table/Point/Function/Constant/AtomicMultiChannel/ParallelChannel/Arithmetic '
+                  '(scalar and atomic)/TimeReversal/Sequence/Repetition/ForLoop/Mapping templates with per-channel '
+                  'dropping; FunctionPT substitution is modelled symbolically (polynomial residual).  Proved for all '
+                  'trees, scopes and drop sets (induction on the template): the constructor preserves the specification '
+                  '(C03_construct_spec), so all clauses are stated on the user-level tree; the model refines an '
+                  'independent lazy specification (obligations of all reached nodes); (a) declared names suffice; (b) '
+                  'assignments agreeing on the declared names give the same result, complete or not (C03_irrelevant); '
+                  '(c) complete assignment: accepted iff every obligation holds, else ParameterConstraintViolation; '
+                  '(c only-if, d) for any assignment under the executable guard guard_C03_function_zero; '
+                  'C03_missing_refuted exhibits the known finding in the model.  The model is tied to /repo by an exact '
+                  'correspondence check on generated trees x assignment families (thorough: exhaustive small scope); '
                   'check_spec evaluates the clauses from the specification on the user-level tree.',
-    'level_note': 'Not proved: equivalence of the specification on the user-level tree and on the constructed tree (merging '
-                  'of nested mappings) - covered by the correspondence only.  One known finding (FunctionPT: a missing '
-                  'parameter multiplied by a supplied 0 vanishes symbolically) where the model diverges from the code '
-                  '(model: error; code: program).  Trusted: Coq kernel, sympy on the generated polynomial fragment, '
-                  'harness.  One defect fixed in /repo (nested MappingPT dropped inner constraints).',
+    'level_note': 'Known finding (FunctionPT: a missing parameter multiplied by a supplied 0 vanishes symbolically) is '
+                  'reproduced by the model; clauses (c only-if)/(d) and the refinement are proved under the guard that '
+                  'excludes exactly such inputs.  Two defects fixed in /repo (nested MappingPT dropped inner constraints; '
+                  'ArithmeticAtomicPT did not declare its measurement parameters).  Trusted: Coq kernel, sympy on the '
+                  'generated polynomial fragment (function expressions of depth <= 2), harness.  Not modelled: division '
+                  'and time-dependent scalars in ArithmeticPT, volatile parameters, channel/measurement renaming.',
     'technique': 'Coq proof (structural induction over the nested template type; refinement of a lazy obligation '
-                 'semantics) + correspondence check with an independent specification oracle',
+                 'semantics; relational proof over scope objects) + correspondence check with an independent '
+                 'specification oracle',
     'design_ref': 'DESIGN.md §5 C03',
 }
